@@ -100,15 +100,17 @@ def x1_toc_heading(level: int, c1: int, c2: int, dq: bool, sq: bool, depth: int,
 @lemma('X1.options', 'C18', timeout=200,
        covers=['contrib/toc_renderer.py:TocRenderer.__init__', 'contrib/github_wiki.py:GithubWikiRenderer.__init__',
                'contrib/mathjax.py:MathJaxRenderer.__init__', 'contrib/mathjax.py:MathJaxRenderer.render_document'],
-       note='the three HtmlRenderer options are forwarded by every contrib constructor; MathJax.render_document = base + script line')
+       note='the three HtmlRenderer options are forwarded by every contrib constructor (Toc, GithubWiki, MathJax, Pygments); MathJax.render_document = base + script line')
 def x1_options(dq: bool, sq: bool, html: bool, which: int, c1: int) -> bool:
     """
-    pre: 0 <= which <= 2 and cp_ok(c1)
+    pre: 0 <= which <= 3 and cp_ok(c1)
     post: _
     """
     from mistletoe import block_token, span_token
     from mistletoe.span_token import RawText
-    names = ['TocRenderer', 'GithubWikiRenderer', 'MathJaxRenderer']
+    names = ['TocRenderer', 'GithubWikiRenderer', 'MathJaxRenderer', 'PygmentsRenderer']
+    if names[which] not in _classes():
+        return True
     cls = _classes()[names[which]]
     try:
         with cls(html_escape_double_quotes=dq, html_escape_single_quotes=sq, process_html_tokens=html) as r:
@@ -165,12 +167,20 @@ def x2_triggers():
     return S_.result()
 
 
-X3_ALPH = ALPH14 + '$|'
+X3_ALPH = ALPH14 + '$|\''
+
+
+def has_code_block(doc):
+    from mistletoe.utils import traverse
+    for r in traverse(doc):
+        if type(r.node).__name__ in ('CodeFence', 'BlockCode'):
+            return True
+    return False
 
 
 def x3_renderers():
     c = _classes()
-    return [(n, c[n]) for n in ('TocRenderer', 'GithubWikiRenderer', 'MathJaxRenderer')]
+    return [(n, c[n]) for n in ('TocRenderer', 'GithubWikiRenderer', 'MathJaxRenderer', 'PygmentsRenderer') if n in c]
 
 
 @lemma('X3.pipeline', 'C18', quick=[{'k': 1, 'sigma': True}] + by('c1', list('$[|`#'), [{'k': 2, 'sigma': False}]),
@@ -179,15 +189,17 @@ def x3_renderers():
        covers=['contrib/toc_renderer.py:TocRenderer.render_heading', 'contrib/mathjax.py:MathJaxRenderer.render_document',
                'contrib/github_wiki.py:GithubWikiRenderer.__init__', 'html_renderer.py:HtmlRenderer.render_document'],
        note='Toc, GithubWiki and MathJax output == HtmlRenderer output (+ script line) on every document meeting the per-renderer side condition; options symbolic')
-def x3_pipeline(c1: int, c2: int, c3: int, dq: bool, html: bool) -> bool:
+def x3_pipeline(c1: int, c2: int, c3: int, dq: bool, sq: bool, html: bool) -> bool:
     """
     pre: (all_ok(cp_md, P('k'), c1, c2, c3) if P('sigma') else all_in(X3_ALPH, P('k'), c1, c2, c3)) and fixed(c1, 'c1')
     post: _
     """
     from mistletoe import Document
     install_quote()
+    from vfy.lemmas.c01 import stub_pygments
+    stub_pygments(False)
     s = S(P('k'), c1, c2, c3)
-    kw = {'html_escape_double_quotes': dq, 'process_html_tokens': html}
+    kw = {'html_escape_double_quotes': dq, 'html_escape_single_quotes': sq, 'process_html_tokens': html}
     with HtmlRenderer(**kw) as r:
         base = r.render(Document(s))
     for name, cls in x3_renderers():
@@ -196,7 +208,10 @@ def x3_pipeline(c1: int, c2: int, c3: int, dq: bool, html: bool) -> bool:
         if name == 'GithubWikiRenderer' and '[[' in s and '|' in s and ']]' in s:
             continue
         with cls(**kw) as r:
-            out = r.render(Document(s))
+            doc = Document(s)
+            if name == 'PygmentsRenderer' and has_code_block(doc):
+                continue
+            out = r.render(doc)
         want = base + (cls.mathjax_src if name == 'MathJaxRenderer' else '')
         if out != want:
             return False
